@@ -5839,8 +5839,7 @@ class CodegenCtx:
         """
 
         needs_early_advance = any(x.may_return_early() for x in transition.actions)
-        immediate_done = transition.target in self.dfa.accepting_states and not ProgramData.do(ProgramFlag.STRICT_DONE_TOKEN_GENERATION) and all(x.error_handling for x in transition.target.transitions)
-        return needs_early_advance and not from_end and not transition.is_fallthrough and not immediate_done
+        return needs_early_advance and not from_end and not transition.is_fallthrough
 
     def _generate_transition_body(self, transition: DFTransition, from_end=False):
         transition_body = Outputter()
@@ -5882,6 +5881,9 @@ class CodegenCtx:
         # Otherwise, if this state is targeting an accept state, return DONE instead of OK
         elif immediate_done:
             transition_body.add("// immediately return DONE")
+            if self._transition_advances_early(transition, from_end):
+                # DONE leaves the start pointer on the last character read
+                transition_body.add("--(*start);" if ProgramData.do(ProgramFlag.INDIRECT_START_PTR) else "--start;")
             transition_body.add(f"return {self.program_name.upper()}_DONE;")
         # At the end of input there is no "next call" to report DONE from
         elif from_end and transition.target in self.dfa.accepting_states:
